@@ -157,7 +157,9 @@ static const ExceptionCharsStruct   s_exceptions[] =
 // ---------------------------------------------------------------------------
 RangeToken* RangeToken::getCaseInsensitiveToken(TokenFactory* const tokFactory) {
 
-    if (fCaseIToken == 0 && tokFactory && fRanges) {
+    // An empty class (no range array, or no ranges left after a subtraction)
+    // gets an empty token too: the callers use the result without a test
+    if (fCaseIToken == 0 && tokFactory) {
 
         bool isNRange = (getTokenType() == T_NRANGE) ? true : false;
         RangeToken* lwrToken = tokFactory->createRange(isNRange);
